@@ -48,8 +48,9 @@ MonStep(m, e) ==
       [] e.ev = "ApiRet" /\ e.op = "SendMeta" -> [m EXCEPT !.calls = Append(@, [op |-> e.op, tag |-> e.tag, callI |-> e.ci, retI |-> e.i, err |-> e.err])]
       [] e.ev = "BRecvReq" /\ e.kind = "UpstreamMetadata" -> [m EXCEPT !.metaReqs = Append(@, [tag |-> e.tag, c |-> e.c])]
       [] e.ev = "BRecvChunk" -> [m EXCEPT !.chunks = Append(@, [sid |-> e.sid, c |-> e.c, toks |-> Toks(e.groups), i |-> e.i])]
-      [] e.ev = "ApiRet" /\ e.op = "Read" -> [m EXCEPT !.reads = Append(@, [sid |-> e.sid, seq |-> e.seq, ok |-> e.err = "", i |-> e.i])]
       [] e.ev = "ApiRet" /\ e.op \in {"Write", "Flush"} /\ m.settleI > 0 -> [m EXCEPT !.probes = Append(@, [what |-> e.op, sid |-> e.sid, ok |-> e.err = ""])]
+      [] e.ev = "ApiRet" /\ e.op = "Read" /\ m.settleI > 0 ->
+            [m EXCEPT !.probes = Append(@, [what |-> e.op, sid |-> e.sid, ok |-> e.err = ""]), !.reads = Append(@, [sid |-> e.sid, seq |-> e.seq, ok |-> e.err = "", i |-> e.i])]
       [] e.ev = "ApiCall" /\ e.op = "CloseConn" -> [m EXCEPT !.closeConnI = IF @ = 0 THEN e.i ELSE @]
       [] e.ev = "Mark" /\ e.what = "settle" -> [m EXCEPT !.settleI = e.i]
       [] e.ev = "Watchdog" -> [m EXCEPT !.watchdog = @ + 1]
